@@ -1164,6 +1164,9 @@ class FileStorage(
 
         # keep track of failures, cause we may succeed later
         failures = {}
+        # blob revisions to copy once the undo is known not to be refused
+        # (a refused undo changes nothing, in the blob directory either)
+        blobs = []
         # Read the data records for this transaction
         while pos < tend:
             h = self._read_data_header(pos)
@@ -1189,12 +1192,7 @@ class FileStorage(
                         if self.is_blob_record(up):
                             # We're undoing a blob modification operation.
                             # We have to copy the blob data
-                            tmp = mktemp(dir=self.fshelper.temp_dir)
-                            with self.openCommittedBlobFile(
-                                    h.oid, userial) as sfp:
-                                with open(tmp, 'wb') as dfp:
-                                    cp(sfp, dfp)
-                            self._blob_storeblob(h.oid, self._tid, tmp)
+                            blobs.append((h.oid, userial))
 
                 new = DataHeader(h.oid, self._tid, ipos, otloc, 0, len(p))
 
@@ -1216,6 +1214,13 @@ class FileStorage(
 
         if failures:
             raise MultipleUndoErrors(list(failures.items()))
+
+        for oid, userial in blobs:
+            tmp = mktemp(dir=self.fshelper.temp_dir)
+            with self.openCommittedBlobFile(oid, userial) as sfp:
+                with open(tmp, 'wb') as dfp:
+                    cp(sfp, dfp)
+            self._blob_storeblob(oid, self._tid, tmp)
 
         return tindex
 
